@@ -11,6 +11,9 @@
 #include <string>
 #include <algorithm>
 #include <atomic>
+#include <csignal>
+#include <sys/mman.h>
+#include <unistd.h>
 
 using namespace vh;
 static FILE* out;
@@ -83,6 +86,13 @@ static void multi(Rng& rng, randomx_cache* cache, randomx_dataset* ds, bool jit,
 	l.emit(out);
 }
 
+// an access outside the dataset extent (the extent ends at a page end followed by an inaccessible page; the page in front
+// of it is inaccessible too) becomes a Crash line, which no action of the trace specification accepts
+static void on_segv(int sig, siginfo_t* si, void*) {
+	char m[160]; int n = snprintf(m, sizeof m, "{\"e\":\"Crash\",\"during\":\"randomx_init_dataset\",\"sig\":%d,\"offset\":%lld}\n", sig, (long long)((uint8_t*)si->si_addr - g_dsmem));
+	fflush(out); (void)!write(fileno(out), m, (size_t)n); _exit(0);
+}
+
 int main(int argc, char** argv) {
 	uint64_t seed = strtoull(arg(argc, argv, "--seed", "1"), nullptr, 10);
 	bool thorough = !strcmp(arg(argc, argv, "--tier", "quick"), "thorough");
@@ -94,9 +104,17 @@ int main(int argc, char** argv) {
 	std::vector<uint8_t> key = rng.bytes(1 + rng.below(80));
 	randomx_init_cache(cache, key.data(), key.size());
 	randomx_dataset* ds = randomx_alloc_dataset(RANDOMX_FLAG_DEFAULT);
-	g_dsmem = (uint8_t*)randomx_get_dataset_memory(ds);
 	unsigned long total = randomx_dataset_item_count();
 	g_dsbytes = (size_t)total * 64;
+	// the library's own allocation is swapped for a guarded mapping of exactly the dataset extent
+	uint8_t* libmem = ds->memory;
+	size_t lead = (4096 - (g_dsbytes % 4096)) % 4096;
+	uint8_t* region = (uint8_t*)mmap(nullptr, 4096 + lead + g_dsbytes + 4096, PROT_NONE, MAP_PRIVATE | MAP_ANONYMOUS | MAP_NORESERVE, -1, 0);
+	mprotect(region + 4096, lead + g_dsbytes, PROT_READ | PROT_WRITE);
+	memset(region + 4096, 0xEE, lead);                       // canary in front of the extent (same page as the first items)
+	g_dsmem = region + 4096 + lead; ds->memory = g_dsmem;
+	struct sigaction sa; memset(&sa, 0, sizeof sa); sa.sa_sigaction = on_segv; sa.sa_flags = SA_SIGINFO; sigaction(SIGSEGV, &sa, nullptr); sigaction(SIGBUS, &sa, nullptr);
+	const bool endOnly = !strcmp(arg(argc, argv, "--part", "all"), "end");
 	bool jit = flavour != 0;
 	// (start, count) classes: every count 0..13 (+ larger), every alignment of start, three bases
 	std::vector<unsigned long> counts; for (unsigned long c = 0; c <= 13; ++c) counts.push_back(c);
@@ -106,12 +124,14 @@ int main(int argc, char** argv) {
 	for (unsigned long c : counts) {
 		for (unsigned long al = 0; al < 4; ++al) {
 			if (c > 13 && al != (c % 4)) continue;
-			one(cache, ds, jit, al, c);                               // from the first items
-			one(cache, ds, jit, mid + al, c);                         // somewhere in the middle
+			if (!endOnly) one(cache, ds, jit, al, c);                 // from the first items
+			if (!endOnly) one(cache, ds, jit, mid + al, c);           // somewhere in the middle
 			if (c + al <= total) one(cache, ds, jit, total - c - al, c); // ending at / just before the last item
 		}
 		one(cache, ds, jit, total - c, c);                            // ending exactly at the last item
 	}
+	{ long long bad = 0; for (size_t k = 0; k < lead; ++k) bad += region[4096 + k] != 0xEE; Line l; l.str("e", "canary").boolean("jit", jit).num("overwritten", bad); l.emit(out); }
+	if (endOnly) { one(cache, ds, jit, 0, 1); one(cache, ds, jit, 0, 5); one(cache, ds, jit, 1, 2); ds->memory = libmem; randomx_release_dataset(ds); randomx_release_cache(cache); fclose(out); return 0; }
 	one(cache, ds, jit, 4194304 - 7, 16);                             // across the cache-line wrap of the mix-block index (2^22 cache lines)
 	one(cache, ds, jit, 2 * 4194304 - 3, 9);
 	for (int i = 0; i < (thorough ? 300 : 30); ++i) { unsigned long c = rng.below(thorough ? 3000 : 300); one(cache, ds, jit, rng.below((uint32_t)(total - c)), c); }
@@ -122,6 +142,7 @@ int main(int argc, char** argv) {
 	multi(rng, cache, ds, jit, 7, 0, 20011);
 	if (thorough) { for (int i = 0; i < 6; ++i) multi(rng, cache, ds, jit, 2 + rng.below(15), rng.below((uint32_t)(total - 300000)), 100000 + rng.below(200000)); }
 	if (thorough && atoi(arg(argc, argv, "--full", "0"))) multi(rng, cache, ds, jit, 16, 0, total);
+	ds->memory = libmem;
 	randomx_release_dataset(ds); randomx_release_cache(cache);
 	fclose(out);
 	return 0;
